@@ -43,6 +43,7 @@ struct SchedConfig {
   long max_steps = 400000;       // horizon (scheduling points)
   long livelock_yields = 64;     // yields without progress => livelock
   int yield_self_budget = 1;     // consecutive self continuations allowed at a yield point
+  bool post_points = false;      // also schedule after every modifying atomic operation
   int ownership = 0;             // 0: all subgrids owned by thread 0, 1: round robin
   bool record_events = true;     // keep the textual event log
   std::function< void(const Event &) > monitor; // called for every event
